@@ -260,6 +260,15 @@ func (s *HiddenFS) Rename(oldname, newname string) error {
 		return &os.PathError{Op: "rename", Path: oldname, Err: ErrHiddenNotExist}
 	}
 
+	// renaming a parent directory of a hidden path would move the hidden content along
+	containsHidden, err := s.isParentOfHidden(oldname)
+	if err != nil {
+		return &os.PathError{Op: "rename", Path: oldname, Err: wrapErrParentOfHiddenCheckFailed(err)}
+	}
+	if containsHidden {
+		return &os.PathError{Op: "rename", Path: oldname, Err: ErrHiddenPermission}
+	}
+
 	hidden, err = s.isHidden(newname)
 	if err != nil {
 		return &os.PathError{Op: "rename", Path: newname, Err: wrapErrHiddenCheckFailed(err)}
